@@ -13,6 +13,13 @@
 (*           field +-1/0/255/256, truncation, extension, flags octet, AUTH  *)
 (*           method length octet, reserved type ...), depth <= MutDepth     *)
 (*           (C20, C22: header forms the encoder never emits).              *)
+(*  body   : x = well-framed datagram (correct length octet and type) of     *)
+(*           every type; Init = empty bodies and bodies made of one         *)
+(*           repeated octet; Next appends one octet of BodyAlphabet and     *)
+(*           re-frames => every body of length 0..min(fixed part +          *)
+(*           BodyExtra, BodyCap) over BodyAlphabet: all-zero / all-0xFF     *)
+(*           variable parts, NUL-only names, client ids, payloads, will     *)
+(*           topics, auth methods ... (C20, C22).                           *)
 (*  pkt    : x = packet; Init = all boundary packets (constructors x flags  *)
 (*           x boundary ids x boundary lengths); no transitions (C21).      *)
 (***************************************************************************)
@@ -25,6 +32,10 @@ CONSTANTS Alphabet,     \* tree: octet alphabet
           MutDepth,     \* struct: mutation depth
           VarLens,      \* pkt/struct: lengths of the variable part
           BigLens,      \* pkt/struct: additional large lengths (subset of types x flags)
+          BodyAlphabet, \* body: tiny octet alphabet of the exhaustive small bodies
+          BodyExtra,    \* body: bodies up to (fixed part + BodyExtra) octets ...
+          BodyCap,      \* body: ... capped at BodyCap octets are enumerated exhaustively
+          RepCap,       \* body: bodies made of one repeated octet up to (fixed + BodyExtra) capped at RepCap
           ShortIds,     \* ids for the inverse laws of the short-topic coding
           ShortPairIds  \* ids for the pairwise injectivity check
 
@@ -208,6 +219,35 @@ NextStruct == /\ depth < MutDepth
 
 (* the base datagrams are canonical encodings: accepted, in class canonical *)
 Inv_StructBase == depth = 0 => Parse(x).ok /\ Class(x) = "canonical"
+
+-----------------------------------------------------------------------------
+(* body: exhaustive small bodies, well framed, for every type *)
+FixedLen(t) ==      \* octets of the fixed part of the body (before the variable part, if any)
+  CASE t \in {WILLTOPICREQ, WILLMSGREQ, WILLMSG, WILLMSGUPD, PINGREQ, PINGRESP} -> 0
+    [] t \in {SEARCHGW, GWINFO, CONNACK, WILLTOPIC, WILLTOPICUPD, WILLTOPICRESP, WILLMSGRESP} -> 1
+    [] t \in {AUTH, PUBCOMP, PUBREC, PUBREL, UNSUBACK, DISCONNECT} -> 2
+    [] t \in {ADVERTISE, SUBSCRIBE, UNSUBSCRIBE} -> 3
+    [] t \in {CONNECT, REGISTER} -> 4
+    [] t \in {REGACK, PUBLISH, PUBACK} -> 5
+    [] t = SUBACK -> 6
+    [] OTHER -> 0
+
+Min2(a, b) == IF a <= b THEN a ELSE b
+BodyMax(t) == Min2(FixedLen(t) + BodyExtra, BodyCap)
+RepMax(t)  == Min2(FixedLen(t) + BodyExtra, RepCap)
+Framed(t, b) == Header(t, Len(b)) \o b
+
+InitBody == /\ x \in {Framed(t, <<>> \o [i \in 1..n |-> c]) : t \in Types, n \in 0..7, c \in BodyAlphabet}
+            /\ Len(BodyOf(x)) <= RepMax(TypeOf(x))
+            /\ depth = 0 /\ EmitDg(x)
+NextBody == /\ Len(BodyOf(x)) < BodyMax(TypeOf(x))
+            /\ \E c \in BodyAlphabet : x' = Framed(TypeOf(x), Append(BodyOf(x), c))
+            /\ depth' = depth + 1
+            /\ EmitDg(x')
+
+(* well framed: the only non-canonical class reachable is an AUTH method-length octet >= 254 *)
+Inv_BodyFramed == /\ Class(x) \in {"canonical", "auth-method-len-overflow"}
+                  /\ LenF(x) = Len(x) /\ HL(x) = 2 /\ TypeOf(x) \in Types
 
 View == x      \* a datagram reached at different depths is one state
 =============================================================================
